@@ -424,33 +424,63 @@ def rewrite_ANF_chain(text, last_method, occurrence, nstages, proofs, tag=""):
     recv = text[toks[start].start:toks[first_dot].start]
     # if the chain is the whole initialiser of a `let`, hoist the stage lets in front of it (flat), else wrap in a block
     flat_at = None
-    if toks[start - 1].text == "=" and toks[end + 1].text == ";":
+    q_ = toks[end + 1].text == "?"          # `CHAIN?`: the result is bound to __r<tag> first, so a proof can follow the last stage
+    aft_ = end + (2 if q_ else 1)
+    if toks[start - 1].text == "=" and toks[aft_].text == ";":
         k = start - 2
         while k > 0 and toks[k].text not in (";", "{", "}"):
             k -= 1
         if toks[k + 1].text == "let":
             flat_at = k + 1
+    elif q_ and toks[start - 1].text in (";", "{", "}") and toks[aft_].text == ";":
+        flat_at = start                      # expression statement `CHAIN?;`
     out = "" if flat_at is not None else "{ "
     prev = recv
     for si, (d, c) in enumerate(stages):
         call = text[toks[d].start:toks[c].end]
         # hoist a closure argument into its own let so proofs can name it
         op = call_paren(toks, d + 1)
-        # hoist a trailing closure argument into its own let so proofs can name it
+        # hoist every closure argument into its own let so proofs can name it (__cl<tag><stage>, then ...b, ...c for further
+        # closure arguments of the same call).  A closure argument ends at the top-level `,` that is followed by the next
+        # closure or by the call's closing parenthesis.
         k = op + 1
-        clo_start = None
+        clos = []   # (start_tok, end_tok_exclusive)
         while k < c:
             if toks[k].text in ("|", "||") and toks[k - 1].text in ("(", ","):
-                clo_start = k
-                break
+                j = k + 1
+                if toks[k].text == "|":
+                    while toks[j].text != "|":
+                        j = match_close(toks, j) if toks[j].text in OPEN else j
+                        j += 1
+                    j += 1
+                while j < c:
+                    if toks[j].text in OPEN:
+                        j = match_close(toks, j) + 1
+                        continue
+                    if toks[j].text == "," and (j + 1 == c or toks[j + 1].text in ("|", "||")):
+                        break
+                    j += 1
+                clos.append((k, j))
+                k = j
+                continue
             if toks[k].text in OPEN:
                 k = match_close(toks, k)
             k += 1
-        if clo_start is not None:
-            clo = text[toks[clo_start].start:toks[c].start]
-            out += f"let __cl{tag}{si} = {clo}; "
-            call = text[toks[d].start:toks[clo_start].start] + f"__cl{tag}{si})"
+        if clos:
+            pieces = [text[toks[d].start:toks[clos[0][0]].start]]
+            for n_, (a_, b_) in enumerate(clos):
+                nm_ = f"__cl{tag}{si}" + ("" if n_ == 0 else "bcdef"[n_ - 1])
+                out += f"let {nm_} = {text[toks[a_].start:toks[b_ - 1].end]}; "
+                pieces.append(nm_)
+                nxt_ = clos[n_ + 1][0] if n_ + 1 < len(clos) else c
+                pieces.append(text[toks[b_ - 1].end:toks[nxt_].start] if n_ + 1 < len(clos) else "")
+            call = "".join(pieces) + ")"
         if si == len(stages) - 1:
+            if flat_at is not None and q_:
+                out += f"let __r{tag} = {prev}{call}; "
+                if si in proofs:
+                    out += f"/*@B INJ chain{tag}{occurrence}#{si}*/ " + proofs[si] + " /*@E*/ "
+                return (text[:toks[flat_at].start] + out + text[toks[flat_at].start:toks[start].start] + f"__r{tag}" + text[toks[end].end:])
             if flat_at is not None:
                 return (text[:toks[flat_at].start] + out + text[toks[flat_at].start:toks[start].start] + f"{prev}{call}" + text[toks[end].end:])
             out += f"{prev}{call} }}"
@@ -691,6 +721,18 @@ def apply_rewrites(text, rewrites):
             if n_ == 0:
                 raise Undecided("R17: no `x.extend(..)`")
             text = ed_.apply()
+        elif rw[0] == "INTOVEC":   # R18: `for PAT in m {` (a local HashMap consumed by value) -> `for PAT in map_into_vec(m) {`
+            toks_ = tokenize(text)
+            hit_ = [k_ for k_, t_ in enumerate(toks_) if t_.text == "in" and toks_[k_ + 1].kind == "ident" and toks_[k_ + 1].text == rw[1] and toks_[k_ + 2].text == "{"]
+            if len(hit_) != 1:
+                raise Undecided(f"R18: `in {rw[1]} {{` found {len(hit_)} times")
+            t_ = toks_[hit_[0] + 1]
+            # bound first, with a ghost copy of the entry sequence for the loop invariants
+            for_ = hit_[0]
+            while toks_[for_].text != "for":
+                for_ -= 1
+            text = (text[:toks_[for_].start] + f"let __iv_{rw[1]} = map_into_vec({rw[1]}); let ghost __ivs_{rw[1]} = __iv_{rw[1]}@; "
+                    + text[toks_[for_].start:t_.start] + f"__iv_{rw[1]}" + text[t_.end:])
         elif rw[0] == "ROOT":
             text = rewrite_ROOT(text, rw[1], rw[2], rw[3], rw[4] if len(rw) > 4 else True)
         elif rw[0] == "ANF":
